@@ -2,3 +2,8 @@
 export GOFLAGS=-mod=mod GOPROXY=off GOSUMDB=off GOTOOLCHAIN=local
 export VERIF_ROOT="${VERIF_ROOT:-$(cd "$(dirname "${BASH_SOURCE[0]}")/.." && pwd)}"
 export REPO="${VERIF_REPO:-/repo}"
+# a run against another tree than /repo (VERIF_REPO=...) must not overwrite the
+# evidence of the real tree (vp run snapshots have their own evidence/ anyway)
+if [ -n "${VERIF_REPO:-}" ] && [ "$VERIF_REPO" != /repo ] && [ -z "${VERIF_EVIDENCE_DIR:-}" ] && [ -z "${VP_RUN_REPO:-}" ]; then
+  export VERIF_EVIDENCE_DIR=/dev/shm/verif-evidence-scratch
+fi
